@@ -360,6 +360,27 @@ func C10Sub(cfg sut.Cfg, d sut.Driver, buf []byte, err sipsp.ErrorHdr, params bo
 // suspended or after a rejection) it must be what the values it summarises say: available only when
 // a Contact value or an Expires header has been parsed, and then the larger of the two.
 func C10Summary(pv *sipsp.PHdrVals) string {
+	// the maximum over the contact values is a number the library reports as well: it is never
+	// smaller than the expires of a value it stored, and equal to their maximum when none was dropped
+	if c := &pv.Contacts; c.N > 0 {
+		var smax uint32
+		for i := 0; i < c.VNo(); i++ {
+			if e := c.Vals[i].Expires; e > smax {
+				smax = e
+			}
+		}
+		if c.MaxExpires < smax {
+			return fmt.Sprintf("Contacts.MaxExpires=%d is smaller than the expires %d of a stored value (N=%d)", c.MaxExpires, smax, c.N)
+		}
+		if !c.More() && c.VNo() == c.N && c.MaxExpires != smax {
+			return fmt.Sprintf("Contacts.MaxExpires=%d but the largest expires among all %d values is %d", c.MaxExpires, c.N, smax)
+		}
+		for i := 0; i < c.VNo(); i++ {
+			if c.Vals[i].HasExpires && c.Vals[i].Expires < c.MinExpires {
+				return fmt.Sprintf("Contacts.MinExpires=%d is larger than expires=%d of stored value %d", c.MinExpires, c.Vals[i].Expires, i)
+			}
+		}
+	}
 	mx, ok := pv.MaxExpires()
 	var want uint32
 	wok := false
